@@ -193,7 +193,8 @@ def one_op(p, inner=False):
 
 
 CUT_PATTERNS = ["RIROP", "IRORP", "RIRRORP", "IRROP", "RIORP", "RIRORRP", "RIROIOP", "RIROIROP", "IRORIP", "RIRDP", "IRDRP", "RIRORP",
-                "RIROSRRP", "RIRSORRP", "RISROP", "RIROIRSOP", "RIOIROP", "RIRTOP", "RTIROP"]
+                "RIROSRRP", "RIRSORRP", "RISROP", "RIROIRSOP", "RIOIROP", "RIRTOP", "RTIROP",
+                "RAIROP", "RAIRDP", "ARIROP"]
 
 
 def op_visit(p):
@@ -419,6 +420,10 @@ class Renderer(object):  # pylint: disable=too-many-instance-attributes
                 elif tok == "D" and self.p["at"]:
                     self.op(("at", "off", "ExcludeRegion", False))
                     self.op(("at", "on", "ExcludeRegion", False))
+                elif tok == "A" and self.p["reg_events"]:
+                    # the user draws a region now (mid-cycle); the following I enters the most recent one
+                    self.add_region(("reg", "new", (i * 131 + j * 17 + n_) % 10 ** 6))
+                    rsel = len(self.regions) - 1
                 elif tok == "S" and self.p["g92e"]:
                     self.op(("sete", (0.0, 1.27, 5.08)[(i + n_) % 3]))
                 elif tok == "T":
